@@ -933,6 +933,14 @@ func (r *runner) attack(at Attack) error {
 		ep := x.Resolve(victimDID).Endpoint
 
 		return send(request(uuid.New().String(), inv.ID, victimDID, strings.ReplaceAll(peerDoc, ep, w.M.Endpoint)), inv)
+	case "req-repoint-routing": // bob's own document with mallory's key added as routing key (his traffic is forwarded to her)
+		peerDoc := r.capturedDoc(victimDID)
+		if peerDoc == "" || !strings.Contains(peerDoc, `"recipientKeys":[`) {
+			return fmt.Errorf("no captured document of the peer")
+		}
+
+		return send(request(uuid.New().String(), inv.ID, victimDID,
+			strings.Replace(peerDoc, `"recipientKeys":[`, `"routingKeys":["`+sender+`"],"recipientKeys":[`, 1)), inv)
 	case "req-docid-fresh": // request and attached document name two different new DIDs; then the exchange is completed
 		th := uuid.New().String()
 		fake2 := "did:peer:1zQm" + base58ish(r.rng, 44)
@@ -1256,7 +1264,7 @@ func base58ish(r *hx.Rng, n int) string {
 
 // ---------- generators ----------
 
-var attackKinds = []string{"req-repoint", "req-repoint-badpthid", "req-repoint-keys", "req-repoint-endpoint", "req-docid-mismatch",
+var attackKinds = []string{"req-repoint", "req-repoint-badpthid", "req-repoint-keys", "req-repoint-endpoint", "req-repoint-routing", "req-docid-mismatch",
 	"req-docid-fresh", "lc-req-repoint", "req-id-remap", "req-id-remap-known", "ping-from-spoof", "rotate-takeover", "rotate-takeover-relkid", "req-nodoc", "req-keysteal", "init-repoint",
 	"complete-replay", "req-same-thread", "resp-forge", "ping-unknown", "owner-reuse"}
 
